@@ -294,6 +294,74 @@ def r6_renames(ctx):
     return out
 
 
+PLATFORM_WORDS = {"c_long": "long", "c_ulong": "unsigned long", "usize": "size_t", "isize": "ssize_t", "size_t": "size_t",
+                  "ssize_t": "ssize_t", "c_longlong": "long long", "c_ulonglong": "unsigned long long", "uintptr_t": "uintptr_t", "intptr_t": "intptr_t"}
+
+
+def r7_source_portability(ctx):
+    """What the type-checked program of *this* build cannot show: (a) every definition of an exported function -- in every
+    cfg variant written in src/capi -- carries #[no_mangle] (a variant compiled only with -C panic=abort or on another
+    target would otherwise silently drop the symbol the header declares); (b) a repr(C) field the header declares with a
+    fixed-width type is declared with a fixed-width Rust type (c_ulong/usize are u64 here and u32 on ILP32 targets)."""
+    import glob
+    out = []
+    repo = ctx.repo
+    try:
+        hdr, _ = _load(ctx)
+    except (ParseError, OSError) as e:
+        return [violated("C18.R7", "header:parse", "include/pathrs.h", str(e))]
+    files = sorted(glob.glob(os.path.join(repo, "src/capi/*.rs")) + [os.path.join(repo, "src/capi.rs")])
+    n = 0
+    for fp in files:
+        if not os.path.exists(fp):
+            continue
+        lines = open(fp).read().split("\n")
+        rel = os.path.relpath(fp, repo)
+        for i, ln in enumerate(lines):
+            m = re.search(r'\bextern\s+"C"\s+fn\s+(pathrs_\w+)', ln)
+            if not m or ln.lstrip().startswith("//"):
+                continue
+            name = m.group(1)
+            attrs = []
+            j = i - 1
+            while j >= 0 and (lines[j].strip().startswith(("#[", "///", "//")) or lines[j].strip() == "" and False):
+                attrs.append(lines[j].strip())
+                j -= 1
+            n += 1
+            key = "%s:no_mangle:%s" % (name, sum(1 for a in attrs if a.startswith("#[cfg")) and "cfg-variant" or "def")
+            if any(a.startswith("#[no_mangle") or a.startswith("#[export_name") or a.startswith("#[unsafe(no_mangle") for a in attrs):
+                out.append(holds("C18.R7", key, "%s:%d" % (rel, i + 1), "definition carries #[no_mangle]"))
+            else:
+                out.append(violated("C18.R7", key, "%s:%d" % (rel, i + 1), "a definition of %s (cfg variant: %s) has no #[no_mangle]: a build that selects it does not export the symbol declared in pathrs.h" % (name, [a for a in attrs if a.startswith("#[cfg")] or "none")))
+    if n < 20:
+        out.append(violated("C18.R7", "exported-definitions:count", "src/capi", "only %d extern \"C\" pathrs_* definitions found in the source scan (expected >= 20)" % n))
+    # (b) fixed-width header fields
+    a = ctx.facts.adts.get("capi::error::CError")
+    h = hdr.structs.get("pathrs_error_t")
+    src = ""
+    try:
+        src = open(os.path.join(repo, "src/capi/error.rs")).read()
+    except OSError:
+        pass
+    m = re.search(r"struct\s+CError\s*\{(.*?)\n\}", src, re.S)
+    if a is None or h is None or not m:
+        out.append(violated("C18.R7", "pathrs_error_t:declared-types", "src/capi/error.rs", "cannot find struct CError in the source / header"))
+        return out
+    decl = dict(re.findall(r"^\s*(?:pub(?:\([^)]*\))?\s+)?(\w+)\s*:\s*([^,\n]+),", m.group(1), re.M))
+    for (ct, nm) in h["fields"]:
+        rt = (decl.get(nm) or "").strip()
+        last = re.split(r"::", rt)[-1].strip()
+        key = "pathrs_error_t:%s:declared-type" % nm
+        fixed = re.fullmatch(r"(const\s+)?u?int(8|16|32|64)_t", ct.strip())
+        if fixed and last in PLATFORM_WORDS:
+            out.append(violated("C18.R7", key, "src/capi/error.rs", "header declares `%s %s` (fixed width) but the Rust field is `%s`, whose width depends on the target (%s): layouts differ on ILP32" % (ct.strip(), nm, rt, PLATFORM_WORDS[last])))
+        elif not rt:
+            out.append(violated("C18.R7", key, "src/capi/error.rs", "field %s not found in the source of CError" % nm))
+        else:
+            out.append(holds("C18.R7", key, "src/capi/error.rs", "header `%s` / Rust `%s`" % (ct.strip(), rt)))
+    return out
+
+
 RULES = [
     ("C18.R1", r1_functions, 20, True),
     ("C18.R2", r2_enum, 4, True),
@@ -301,4 +369,5 @@ RULES = [
     ("C18.R4", r4_go, 25, True),
     ("C18.R5", r5_python, 25, True),
     ("C18.R6", r6_renames, 4, True),
+    ("C18.R7", r7_source_portability, 22, True),
 ]
